@@ -1,6 +1,6 @@
 (* Extract.v — extraction of the executable model (ExtrOcamlBasic only; numbers stay Coq's
    positive/N/Z/nat inductives). *)
-From PegtlV Require Import Base Decode Grammar Engine.
+From PegtlV Require Import Base Decode Grammar Engine Spec Denote.
 From Coq Require Import Extraction ExtrOcamlBasic.
 Extraction Language OCaml.
-Extraction "pegtlv.ml" eval run N.add N.mul.
+Extraction "pegtlv.ml" eval run N.add N.mul peg_fn structure_tie.
